@@ -870,6 +870,7 @@ CONSTANTS
   Me <- TraceMe
   Peers_ <- TracePeers
   Foreign_ <- TraceForeign
+  Later_ <- TraceLater
   Quorum <- TraceQuorum
   MyPrio <- TracePrio
   QuorumTooLow <- TraceTooLow
@@ -956,7 +957,7 @@ def c19_check(prop, tier, seed, replay):
     t1 = time.time()
     tot = {"distinct": 0, "generated": 0}
     if not os.environ.get("VERIF_DEV_SKIP_MC"):
-        cfgs = ["MC_C19.cfg", "MC_C19_q3.cfg", "MC_C19_low.cfg"] if tier == "quick" else ["MC_C19_thorough.cfg", "MC_C19_q3.cfg", "MC_C19_low.cfg"]
+        cfgs = ["MC_C19.cfg", "MC_C19_q3.cfg", "MC_C19_low.cfg", "MC_C19_dyn.cfg"] if tier == "quick" else ["MC_C19_thorough.cfg", "MC_C19_q3.cfg", "MC_C19_low.cfg", "MC_C19_dyn.cfg"]
         for c in cfgs:
             out = vlib.tlc(d, "MC_C19", open(os.path.join(vlib.SPEC, c)).read(), workers=8, timeout=3000, heap="8g")
             err, st = vlib.tlc_error(out), vlib.tlc_stats(out)
@@ -964,7 +965,7 @@ def c19_check(prop, tier, seed, replay):
                 raise ToolError("model checking of Election (%s) failed: %s\n%s" % (c, err, out[-3000:]))
             tot["distinct"] += st["distinct"]
             tot["generated"] += st["generated"]
-    log(f"[{prop}] TLC Election (3 configurations): {tot['distinct']} distinct states, {tot['generated']} transitions, {time.time()-t1:.0f}s")
+    log(f"[{prop}] TLC Election (4 configurations, one with a config file rewritten at run time): {tot['distinct']} distinct states, {tot['generated']} transitions, {time.time()-t1:.0f}s")
     apalache = None
     if tier == "thorough" and not os.environ.get("VERIF_DEV_SKIP_MC"):
         # unbounded datagram histories: IndInv is inductive, and every step from an IndInv state satisfies C19
@@ -1008,7 +1009,7 @@ def c19_check(prop, tier, seed, replay):
                           "properties; real orchestrator processes (cluster sizes 1-7, default and configured quorums) against scripted UDP "
                           "peers and a stub server executable, behaviour explained by TLC with receive/timeout/heartbeat as inferred steps"}
     return {"coverage": cov, "known": {}, "violations": violations,
-            "assumptions": ["loopback UDP delivers in order and without loss", "configuration changes at run time (config file watcher) are not exercised",
+            "assumptions": ["loopback UDP delivers in order and without loss", "configuration changes at run time: only the set of peers changes, only without a configured quorum, one new version of the file per process",
                             "priority is configured (not derived from the last-persisted file)",
                             "the orchestrator is built from /repo through the harness' path dependency (bin wborch = main.rs of the orchestrator crate, without jemalloc)"]}
 
